@@ -35,12 +35,13 @@ ChoiceOf(i) == << SeqP(1, "1", << ChoiceP(<< El(Left[i], B("string"), 1, "1"), E
 AttrsOf(i) == << At(Key[i], B("string"), "req"), At(Tag[i], B("int"), "opt") >>
 \* the choice is the whole content (of the type, or of the extension), and may repeat
 TopChoiceOf(i) == << [k |-> "choice", min |-> 0, max |-> "unb", ps |-> << El(Left[i], B("string"), 1, "1"), El(Right[i], B("long"), 1, "1") >>] >>
+AllOf(i) == << [k |-> "all", min |-> 1, max |-> "1", ps |-> << El(Left[i], B("string"), 1, "1"), El(Right[i], B("long"), 0, "1") >>] >>
 ContentOf(kind, i) == CASE kind = "seq" -> SeqOf(i) [] kind = "seqattrs" -> SeqOf(i) [] kind = "choice" -> ChoiceOf(i)
-                        [] kind = "topchoice" -> TopChoiceOf(i) [] OTHER -> <<>>
+                        [] kind = "topchoice" -> TopChoiceOf(i) [] kind = "all" -> AllOf(i) [] OTHER -> <<>>
 AttrOf(kind, i) == IF kind \in {"attrs", "seqattrs"} THEN AttrsOf(i) ELSE <<>>
 
 AllKinds == {"empty", "seq", "choice", "attrs", "seqattrs"}
-AllKindsX == AllKinds \cup {"topchoice"}
+AllKindsX == AllKinds \cup {"topchoice", "all"}
 \* user = "ref_first": the file starts with a type that REFERS to the global element carrying the root base's name
 \* (so that the element is looked up, ahead of its declaration, before any base is)
 \* rec = "tree": the root base contains a reference to the global element AlphaChild, whose anonymous type EXTENDS the
